@@ -110,6 +110,23 @@ def oracle(ctx, seeds=None):
                 res.fail(name + ':not-elementwise', "array result differs from scalar at %r" % (pairs[i],),
                          dict(limiter=name, a=pairs[i][0], b=pairs[i][1]))
             res.case((name, 'array'))
+            # the same batch presented in another order: starting with a pair of opposite signs, with a zero pair, with a huge pair
+            # (the value of an element does not depend on which element comes first)
+            for what, pred in (('opposite-signs-first', lambda a_, b_: a_ * b_ < 0), ('zero-first', lambda a_, b_: a_ == 0 or b_ == 0), ('huge-first', lambda a_, b_: a_ * b_ > 0 and min(abs(a_), abs(b_)) > 1e100)):
+                k0 = next((k_ for k_, (a_, b_) in enumerate(pairs[:200]) if pred(a_, b_)), None)
+                if k0 is None:
+                    continue
+                ok_, arr2 = impl.guarded(lambda: np.asarray(f(np.roll(A, -k0), np.roll(B, -k0))))
+                res.case((name, 'array', what))
+                if not ok_:
+                    res.fail(name + ':array-raised', "%s (batch starting with the pair %r)" % (arr2, pairs[k0]), dict(limiter=name, first_pair=list(pairs[k0]))); continue
+                exp2 = np.roll(sc, -k0)
+                bad2 = np.nonzero(~((np.abs(arr2 - exp2) <= np.roll(tolv, -k0)) | (np.isnan(arr2) & np.isnan(exp2))))[0] if np.shape(arr2) == A.shape else np.array([0])
+                if len(bad2):
+                    j2 = (int(bad2[0]) + k0) % 200
+                    res.fail(name + ':not-elementwise', "array result differs from the scalar one at %r when the batch starts with the pair %r (%s): %r instead of %r" %
+                             (pairs[j2], pairs[k0], what, float(np.ravel(arr2)[int(bad2[0])]) if np.shape(arr2) == A.shape else None, float(exp2[int(bad2[0])])),
+                             dict(limiter=name, a=pairs[j2][0], b=pairs[j2][1], first_pair=list(pairs[k0])))
     return res
 
 
